@@ -15,6 +15,7 @@ FAMILY_VARIANTS = {
     "nest2_mixed": ALLV + POLV,
     "order_rows": ALLV + POLV,
     "conflict_ortho": ALLV + POLV,
+    "completion_chain": ALLV + POLV,
     "flags": ALLV + ["B+p3", "M+p3"],
     "fe_player": ["B", "B+feR", "B+feR2", "B+feP", "B+feE", "BC+feE", "M", "M+feR", "M+feP", "M+feE"],
     "fe_conflict": ["B", "B+feR", "B+feR2", "B+feP", "B+feE", "BC+feE", "M", "M+feR", "M+feP", "M+feE"],
@@ -169,6 +170,8 @@ PROPS = {
         "jobs": jobs(["order_rows", "nest2_mixed", "conflict_ortho"], ["throws"], 600, 30000)
                 + jobs(["nest3", "completion_chain", "queue_flat", "queue_nested", "defer_basic", "fork_entry", "exit_points", "history_always"],
                        ["throws"], 600, 30000, variants=ALLV)
+                # an exception in the entry of a completion source under every switch policy (seeded defect C12, DESIGN.md section 12)
+                + jobs(["completion_chain"], ["throws"], 600, 30000, variants=POLV)
                 # "the outcome does not depend on uninitialised data": the same plans under valgrind (one plan per process)
                 + [job("completion_chain", "throws", 12, 300, variants=["M", "B"], valgrind=True),
                    job("nest2_mixed", "throws", 8, 200, variants=["M", "B"], valgrind=True)]
@@ -212,14 +215,14 @@ PROPS = {
     "C15": {
         "jobs": jobs(["nest2_mixed", "exit_points", "history_always", "history_shallow", "ids_mixed_shallow", "ids_mixed_always", "serial_nested",
                       "defer_basic", "queue_flat", "queue_nested"], ["fork"], 800, 40000, variants=ALLV)
-                + rand_jobs("hist", ["fork"], 600, 8000) + rand_jobs("pseudo", ["fork"], 0, 6000),
+                + rand_jobs("hist", ["fork"], 600, 8000) + rand_jobs("pseudo", ["fork"], 0, 6000) + rand_jobs("ser", ["fork"], 0, 6000, nthorough=12),
         "nontrivial": ["fork"],
         "rule": "plans with copy-construct (from const&), copy-assign, move-construct / move-assign (backmp11), destroy, with queued and "
                 "deferred events pending, then different continuations on up to 3 replicas; every behaviour record carries the replica "
                 "that owns the fsm argument and the state object (address ranges): invariant I5; non-trivial = a fork op occurred",
     },
     "C16": {
-        "jobs": jobs(["serial_nested"], ["crash"], 1500, 60000),
+        "jobs": jobs(["serial_nested"], ["crash"], 1500, 60000) + rand_jobs("ser", ["crash"], 600, 8000, nthorough=12),
         "nontrivial": ["saveload"],
         "rule": "crash-restart: save a quiescent machine with empty queues to a text or binary archive, destroy it (or keep it as a second "
                 "replica), load into a fresh machine, continue; active ids, history memory and do_serialize data compared after every op",
